@@ -28,7 +28,8 @@ class dtype:
 
     @property
     def kind(self):
-        return {"int64": "i", "float64": "f", "bool": "b", "object": "O", "str": "O"}.get(self.name, "O")
+        return {"int8": "i", "int16": "i", "int32": "i", "int64": "i", "float64": "f", "bool": "b", "object": "O",
+                "str": "O"}.get(self.name, "O")
 
     def __eq__(self, o):
         return getattr(o, "name", o) == self.name or (o is int and self.name == "int64") or (
@@ -131,8 +132,15 @@ class ndarray:
     def copy(self):
         return ndarray(self.tolist())
 
-    def astype(self, t):
-        return self
+    def astype(self, t, **kw):
+        from .pdcore import INT_BITS, norm_dtype, wrap_int
+        try:
+            tn = norm_dtype(t)
+        except Exception:
+            return self
+        if tn in INT_BITS:
+            return ndarray([wrap_int(v, tn) for v in self._d], tn)
+        return ndarray(list(self._d), tn if tn in ("int64", "float64", "object", "str") else None)
 
     # -- elementwise ---------------------------------------------------------
     def _ew(self, o, op):
